@@ -5,8 +5,8 @@
    the witnesses of the former behaviour stay in Proofs/C09_*P.v as lemmas about the switches at [false]. *)
 From Coq Require Import ZArith List String Bool Arith.
 Import ListNotations.
-From TD Require Import Model.Dual Model.C09_Align Model.C09_Shape Model.C09_Reduce Spec.C09_KeyWise Spec.C09_TorchReduce
-  Proofs.C09_AlignP Proofs.C09_CompareP Proofs.C09_ReduceP Proofs.C09_ShapeP Proofs.C09_CmpP.
+From TD Require Import Model.Dual Model.C09_Align Model.C09_Shape Model.C09_Reduce Model.C09_Lazy Spec.C09_KeyWise
+  Spec.C09_TorchReduce Proofs.C09_AlignP Proofs.C09_CompareP Proofs.C09_ReduceP Proofs.C09_ShapeP Proofs.C09_CmpP Proofs.C09_LazyP.
 Local Open Scope string_scope.
 Local Open Scope list_scope.
 
@@ -200,6 +200,95 @@ Theorem C09_reduce_names : forall op (bs : shape) ns dim kd r,
 Proof. exact front_names_ok. Qed.
 Print Assumptions C09_reduce_names.
 
+(* ------------------------------------------------------------------ lazy stacks (D50-D53 repaired: fixes/C09/D50-D51, D52,
+   D53.diff).  A lazy stack = list of member item lists (+ stack dim); the dense stack holds under key k the list of
+   the members' entries under k, and a pointwise op acts on it slice by slice.  "(lazy op other) materialised =
+   (dense op other)" therefore reads: member i of the result holds under k the pair (self_i[k], other_i[k]). *)
+(* the fused path on member-indexed keys (str(i), *key): for any member count, any key order PER MEMBER *)
+Theorem C09_lazy_binary_keywise : forall (V : Type) fx f (s o : @lazy V),
+  List.length s = List.length o -> lazy_items s <> [] ->
+  (forall i, i < List.length s -> NoDup (keys_of (nth i s [])) /\ NoDup (keys_of (nth i o [])) /\
+                                   same_keysb (nth i s []) (nth i o []) = true) ->
+  exists ms, lazy_binary_plan true fx f s (LOpLazy o) DNone = Ok (LzMembers ms) /\ List.length ms = List.length s /\
+    forall i k, i < List.length s -> dget (nth i ms []) k = spec_same (nth i s []) (nth i o []) k.
+Proof. exact @lazy_binary_keywise. Qed.
+Print Assumptions C09_lazy_binary_keywise.
+(* default=<value> (D52 repaired): member i gets the union of the keys of self_i and other_i, no member-indexed key *)
+Theorem C09_lazy_binary_default : forall (V : Type) fx f (s o : @lazy V) (v : V),
+  List.length s = List.length o -> lazy_items o <> [] ->
+  (forall i, i < List.length s -> NoDup (keys_of (nth i s [])) /\ NoDup (keys_of (nth i o []))) ->
+  exists ms, lazy_binary_plan true fx f s (LOpLazy o) (DVal v) = Ok (LzMembers ms) /\ List.length ms = List.length s /\
+    forall i k, i < List.length s -> dget (nth i ms []) k = spec_default v (nth i s []) (nth i o []) k.
+Proof. exact @lazy_binary_default. Qed.
+Print Assumptions C09_lazy_binary_default.
+Theorem C09_lazy_binary_scalar : forall (V : Type) fx f (s : @lazy V) d,
+  lazy_items s <> [] -> (forall i, i < List.length s -> NoDup (keys_of (nth i s []))) ->
+  exists ms, lazy_binary_plan true fx f s LOpScalar d = Ok (LzMembers ms) /\ List.length ms = List.length s /\
+    forall i k, i < List.length s -> dget (nth i ms []) k = spec_scalar (nth i s []) k.
+Proof. exact @lazy_binary_scalar. Qed.
+Print Assumptions C09_lazy_binary_scalar.
+(* the member-indexed keys are an injective pairing, and member i receives exactly the entries keyed (i, _) *)
+Theorem C09_lazy_member_keys : forall (A : Type) (r : list (string * A)) i j k k',
+  (mkey i k = mkey j k' -> i = j /\ k = k') /\ dget (member_part i r) k = dget r (mkey i k).
+Proof. intros A r i j k k'. split; [apply mkey_inj|apply member_part_get]. Qed.
+Print Assumptions C09_lazy_member_keys.
+(* comparisons: members zipped with other.unbind(stack_dim), each compared per nested node *)
+Theorem C09_lazy_compare_keywise : forall (V : Type) (s o : list (tree V)), Forall2 same_struct s o ->
+  exists r, lazy_compare s o = Ok r /\
+    Forall2 (fun c ab => exists t, c = COk t /\ forall p, cleaf_at t p = spec_cmp (fst ab) (snd ab) p) r (combine s o).
+Proof. exact @lazy_compare_keywise. Qed.
+Print Assumptions C09_lazy_compare_keywise.
+(* a tensor of rank >= 1 (D50 repaired): the stack keeps its shape -> every member is called with ITS slice; the stack
+   must grow -> it is dense and the dense theorems (C09_broadcast_left) apply *)
+Theorem C09_lazy_broadcast_member : forall (bs s : shape) sd,
+  List.length s <> 0 -> bcast_all [bs; s] = Some bs ->
+  lazy_maybe_broadcast true bs sd [KTensor s] = LMember bs (maybe_broadcast (remove_at sd bs) [KTensor (remove_at sd bs)]).
+Proof. exact lazy_broadcast_member. Qed.
+Print Assumptions C09_lazy_broadcast_member.
+Theorem C09_lazy_broadcast_dense : forall (bs s B : shape) sd,
+  List.length s <> 0 -> bcast_all [bs; s] = Some B -> shape_eqb B bs = false ->
+  lazy_maybe_broadcast true bs sd [KTensor s] = LDense (BPerLeaf B).
+Proof. exact lazy_broadcast_dense. Qed.
+Print Assumptions C09_lazy_broadcast_dense.
+(* element level, every stack dim, every member: position (jb ++ jf) of member i's leaf reads the operand where the
+   dense stack's leaf reads it at (jb with i inserted at the stack dim) ++ jf *)
+Theorem C09_lazy_member_view : forall (s B feat : shape) sd i,
+  expandable s B = true -> sd < List.length B ->
+  exists u, member_operand_view s B sd i feat = Ok u /\ vshape u = remove_at sd B ++ feat /\
+    forall jb jf, Forall2 lt jb (remove_at sd B) -> List.length jf = List.length feat ->
+      vidx u (jb ++ jf) = spec_left_index s B (insert_at sd i jb ++ jf).
+Proof. exact member_view_is_dense_view. Qed.
+Print Assumptions C09_lazy_member_view.
+(* softmax (D53 repaired): the member axis is the stack's axis; the stack dim itself goes through the dense copy *)
+Theorem C09_lazy_softmax_axis : forall nb sd dim d,
+  correct_neg_dim dim nb = Some d -> d <> sd ->
+  exists d', lazy_softmax true nb sd dim = SmMember d' /\
+    forall (j : list nat) (i : nat), sd <= List.length j -> nth d (insert_at sd i j) 0 = nth d' j 0.
+Proof. exact lazy_softmax_axis. Qed.
+Print Assumptions C09_lazy_softmax_axis.
+Theorem C09_lazy_softmax_stack_dim : forall nb sd dim,
+  correct_neg_dim dim nb = Some sd -> lazy_softmax true nb sd dim = SmDense sd.
+Proof. exact lazy_softmax_stack_dim. Qed.
+Print Assumptions C09_lazy_softmax_stack_dim.
+(* the code before D53 (switch at false) ran over another axis: kept as a witness of what the repair changed *)
+Theorem C09_lazy_softmax_unrepaired_refuted :
+  exists nb sd dim d j i, lazy_softmax false nb sd dim = SmLeaf d /\ sd <= List.length j /\
+    nth d (insert_at sd i j) 0 <> nth d j 0.
+Proof. exact lazy_softmax_before_refuted. Qed.
+Print Assumptions C09_lazy_softmax_unrepaired_refuted.
+
+(* reductions of a lazy stack are the dense reductions of its dense copy (same batch size; names kept except for the
+   rank-1 quirk lazy_dense_names): every C09_reduce_* theorem applies; a named result has one name per batch dim *)
+Theorem C09_lazy_reduce_names : forall op (bs : shape) ns dim kd r,
+  2 <= List.length bs -> List.length ns = List.length bs -> lazy_front fixed_reduce op bs (Some ns) dim kd = Ok r ->
+  forall ns', ro_names r = Some ns' -> List.length ns' = List.length (ro_bs r).
+Proof.
+  intros op bs ns dim kd r G L H ns' E. unfold lazy_front, lazy_dense_names in H.
+  replace (Nat.leb (List.length bs) 1) with false in H by (symmetry; apply Nat.leb_gt; exact G).
+  exact (front_names_ok op bs ns dim kd r L H ns' E).
+Qed.
+Print Assumptions C09_lazy_reduce_names.
+
 (* ------------------------------------------------------------------ non-vacuity: concrete instances of the hypotheses *)
 Example C09_ex_binary :
   let s := [("x", 2%Z); ("n.y", 3%Z); ("n.z", 5%Z)] in let o := [("n.z", 50%Z); ("x", 20%Z); ("n.y", 30%Z)] in
@@ -236,3 +325,22 @@ Example C09_ex_reduce :
   = Ok {| ro_bs := [3]; ro_names := Some [Some "q"]; ro_call := LcDim (PTuple [2; 0]) KdNoDefault; ro_post := PostNone |}
   /\ torch_reduce ([2; 3; 4] ++ [7]) [2; 0] false = [3; 7].
 Proof. repeat split; reflexivity. Qed.
+Example C09_ex_lazy :
+  let s := [[("x", 1%Z); ("y", 2%Z)]; [("y", 4%Z); ("x", 3%Z)]] in
+  let o := [[("y", 20%Z); ("x", 10%Z)]; [("x", 30%Z); ("y", 40%Z)]] in
+  List.length s = List.length o /\ lazy_items s <> [] /\
+  lazy_binary_plan true true Foreach s (LOpLazy o) DNone
+  = Ok (LzMembers [[("x", (1%Z, RLeaf 10%Z)); ("y", (2%Z, RLeaf 20%Z))]; [("y", (4%Z, RLeaf 40%Z)); ("x", (3%Z, RLeaf 30%Z))]]) /\
+  lazy_binary_plan true true Foreach [[("x", 1%Z)]; [("x", 2%Z)]] (LOpLazy [[("x", 10%Z); ("c", 30%Z)]; [("x", 20%Z); ("c", 40%Z)]]) (DVal 0%Z)
+  = Ok (LzMembers [[("x", (1%Z, RLeaf 10%Z)); ("c", (0%Z, RLeaf 30%Z))]; [("x", (2%Z, RLeaf 20%Z)); ("c", (0%Z, RLeaf 40%Z))]]) /\
+  bcast_all [[2; 3]; [3]] = Some [2; 3] /\
+  lazy_maybe_broadcast true [2; 3] 1 [KTensor [3]] = LMember [2; 3] (BPerLeaf [2]) /\
+  lazy_maybe_broadcast true [3] 0 [KTensor [3]] = LMember [3] BDirect /\
+  lazy_maybe_broadcast true [2; 3] 0 [KTensor [3]] = LMember [2; 3] (BPerLeaf [3]) /\
+  lazy_maybe_broadcast true [3] 0 [KTensor [2; 3]] = LDense (BPerLeaf [2; 3]) /\
+  match member_operand_view [3] [2; 3] 1 2 [4] with
+  | Ok u => vshape u = [2; 4] /\ vidx u [1; 3] = [2]
+  | Raised => False
+  end /\
+  correct_neg_dim (-1) 3 = Some 2 /\ lazy_softmax true 3 1 (-1) = SmMember 1 /\ lazy_softmax true 3 1 1 = SmDense 1.
+Proof. cbv zeta. repeat split; try reflexivity; try (cbn; discriminate). Qed.
